@@ -140,6 +140,73 @@ def skeleton_cases(tier, rng):
     return cases
 
 
+GSKELS = [
+    ['T', 'in s skip_unauthorized', 'E', 'T', '/in', 'E', 'T'],
+    ['in s skip_unauthorized', 'E', 'T', 'else', 'E', 'T', '/in', 'E', 'T'],
+    ['if x', 'E', 'in s skip_unauthorized', 'E', 'T', '/in', 'E', 'T', '/if', 'E', 'T'],
+    ['in s skip_unauthorized', 'E', 'if y', 'E', 'T', 'else', 'E', 'T', '/if', 'E', '/in', 'E'],
+    ['T', 'in s skip_unauthorized', 'E', 'T', 'var v', 'T', '/in', 'E', 'T'],
+    ['in s skip_unauthorized size=9', 'E', 'T', '/in', 'E', 'T'],
+]
+
+
+def guarded_cases(tier, rng):
+    """a block's text is emitted each time, and only when, its body is rendered: under a template class whose guard refuses
+    some elements of the sequence (skip_unauthorized) the body of dtml-in is rendered for the permitted elements only.  The
+    machine sees the permitted elements (env s = their number); the real class gets all n elements and the guard."""
+    out = []
+    for sk in GSKELS:
+        nt, ne = sk.count('T'), sk.count('E')
+        for style in (0, 1, 3):
+            # at least one element stays permitted: a sequence whose elements are all refused is not an empty sequence (no else body)
+            for n, refuse in ((3, [1]), (3, [0, 2]), (2, [1]), (4, [3]), (5, [0, 1, 3]), (3, [])):
+                for rep in range(2 if tier == 'quick' else 6):
+                    texts = [rng.choice(TEXTS) for _ in range(nt)]
+                    eols = [rng.choice(EOLS[:8]) for _ in range(ne)]
+                    for e in ENVS[:2]:
+                        env = dict(e, s=n - len(refuse))
+                        out.append({'syn': syn_of(style), 'src': fill(sk, style, texts, eols), 'env': env, 'fam': 'guarded',
+                                    'render': True, 'guard': {'n': n, 'refuse': refuse}})
+    return out
+
+
+_GCLS = {}
+
+
+def guarded_class(syn, refuse):
+    key = (syn, tuple(refuse))
+    if key not in _GCLS:
+        from zExceptions import Unauthorized
+        base = front.template_class(syn)
+
+        def guarded_getitem(seq, index, refuse=frozenset(refuse)):
+            if isinstance(seq, list) and index in refuse:
+                raise Unauthorized('element %d' % index)
+            return seq[index]
+
+        def guarded_getattr(ob, name, default=None):
+            return getattr(ob, name)
+        _GCLS[key] = type('Guarded' + base.__name__, (base,), {'guarded_getitem': staticmethod(guarded_getitem),
+                                                               'guarded_getattr': staticmethod(guarded_getattr)})
+    return _GCLS[key]
+
+
+_GC = None
+
+
+def _guarded_one(i):
+    c, m = _GC[i]
+    env = front.py_env(c['env'])
+    env['s'] = list(range(1, c['guard']['n'] + 1))
+    try:
+        got = guarded_class(c['syn'], c['guard']['refuse'])(c['src'])(**env)
+        if not isinstance(got, str):
+            got = repr(got)
+    except BaseException as e:  # noqa
+        got = 'RAISED %s: %s' % (type(e).__name__, str(e)[:100])
+    return {'i': i, 'exp': front.txt(m['out']), 'got': got}
+
+
 def fragment_cases(tier, rng):
     full = 3 if tier == 'quick' else 4
     alph = NEAR if tier == 'quick' else NEAR[:17] + [' ', '\n', 'x']
@@ -201,7 +268,7 @@ def composition_cases(tier, rng):
 def main(tier):
     V = common.Verdicts(PID, tier)
     rng = random.Random(common.seed())
-    base = fragment_cases(tier, rng) + skeleton_cases(tier, rng)
+    base = fragment_cases(tier, rng) + skeleton_cases(tier, rng) + guarded_cases(tier, rng)
     comp, triples = composition_cases(tier, rng)
     off = len(base)
     cases = base + comp
@@ -237,6 +304,19 @@ def main(tier):
                              'cls': 'tag-free' if only_text else 'raised' if got.startswith('RAISED') else 'verbatim'})
         elif r.get('unrendered'):
             V.count('not_rendered_unsupported_by_RL')
+    # guarded twins: the real class with a guard refusing elements must render what the machine renders for the permitted ones
+    global _GC
+    _GC = [(c, models[j]) for j, c in enumerate(cases) if c.get('guard') and models[j] is not None and models[j]['k'] == 'ok'
+           and not models[j]['un']]
+    for r in common.pool_map(_guarded_one, range(len(_GC)), chunk=100, per_case=20):
+        if '_crash' in r or '_timeout' in r:
+            common.machinery_failure('harness crash: %s' % repr(r)[:1500])
+        c = _GC[r['i']][0]
+        if r['exp'] == r['got']:
+            V.count('guarded_renderings_conform')
+        else:
+            V.violation({'kind': 'departure', 'clause': 'only-when-rendered', 'syn': c['syn'], 'source': c['src'], 'env': c['env'],
+                         'guard': c['guard'], 'expected': r['exp'], 'got': r['got'], 'family': 'guarded', 'cls': 'guarded'})
     # composition, decided by the machine's three renderings
     byi = {r['i']: r for r in results if 'i' in r}
     composed = skipped = 0
@@ -255,12 +335,13 @@ def main(tier):
                          'b': cases[off + ib]['src'], 'env': c['env'], 'got_a': ra['render'][1], 'got_b': rb['render'][1],
                          'got_ab': rab['render'][1], 'cls': 'composes'})
     cov = {'states': stats['states'], 'transitions': stats['transitions'],
-           'traces_validated_against_impl': V.counters.get('renderings_conform', 0),
+           'traces_validated_against_impl': V.counters.get('renderings_conform', 0) + V.counters.get('guarded_renderings_conform', 0),
            'sources': len(cases), 'tag_free_sources': tagfree, 'compositions_claimed': composed,
            'compositions_where_the_machine_does_not_compose': skipped, 'exhaustive': True,
            'actions_covered': stats['coverage'],
            'rule': 'near-tag fragment sequences (all up to length %d), %d block skeletons x 4 spellings x line-end variants at every '
-                   'block tag x near-tag literals x 3 namespaces, pairs and every split point of pool templates'
+                   'block tag x near-tag literals x 3 namespaces, pairs and every split point of pool templates; dtml-in skeletons under a '
+                   'guard refusing subsets of the elements (skip_unauthorized)'
                    % (3 if tier == 'quick' else 4, len(SKELS)),
            'samples': [{'syn': cases[i]['syn'], 'source': cases[i]['src']} for i in (11, off // 2, off - 3, off + 5, len(cases) - 2)]}
     return V.finish(cov, assumptions=['namespaces hold plain ASCII text, lists of ints and an attribute-less object',
